@@ -16,6 +16,7 @@ type State struct {
 	keep   map[string]bool // havocSome: names that are NOT havocked (nil => see mods)
 	mods   map[string]bool // havocSome: names that are havocked
 	tag    string
+	modPrefixes []string // havocSome: heap names with these prefixes (after the kind tag) are havocked too
 }
 
 type stateKind int
@@ -26,6 +27,7 @@ const (
 	stMerge
 	stHavocAll
 	stHavocSome
+	stGhostDelta // call events relative to a callee's entry: fresh, callee-local values
 )
 
 func (vc *VC) newState(kind stateKind, parent *State) *State {
@@ -34,6 +36,44 @@ func (vc *VC) newState(kind stateKind, parent *State) *State {
 }
 
 func (s *State) seq() *State { return s.vc.newState(stSeq, s) }
+
+// prefixHit: name is a heap whose qualified name (after F$/M$/MD$/...) starts with a havocked prefix.
+func (s *State) prefixHit(name string) bool {
+	i := strings.Index(name, "$")
+	if i < 0 || strings.HasPrefix(name, "G$") || strings.HasPrefix(name, "L$") || strings.HasPrefix(name, "A$") {
+		if strings.HasPrefix(name, "A$") {
+			return s.prefixHit(name[2:])
+		}
+		return false
+	}
+	q := name[i+1:]
+	for _, p := range s.modPrefixes {
+		if strings.HasPrefix(q, p) {
+			return true
+		}
+	}
+	for k := range s.mods {
+		if strings.HasPrefix(k, "prefix:") && strings.HasPrefix(q, k[7:]) {
+			return true
+		}
+	}
+	return false
+}
+
+// deltaNames: is the ghost variable name one of the callee's watched names?
+func (s *State) deltaNames(name string) bool {
+	for w := range s.mods {
+		for _, pre := range []string{"G$called$", "G$ncalls$", "G$tainted$", "G$seq$"} {
+			if name == pre+w {
+				return true
+			}
+		}
+		if strings.HasPrefix(name, "G$ret$"+w+"$") || strings.HasPrefix(name, "G$arg$"+w+"$") {
+			return true
+		}
+	}
+	return false
+}
 
 // get returns the current term for name (of the given sort).
 func (s *State) get(name string, sort Sort) Term {
@@ -56,12 +96,20 @@ func (s *State) get(name string, sort Sort) Term {
 			}
 		}
 	}
+	if s.kind == stGhostDelta {
+		if strings.HasPrefix(name, "G$") && !strings.HasPrefix(name, "G$held$") && s.deltaNames(name) {
+			t = s.vc.declareFresh(name+"!d", sort)
+			s.writes[name] = t
+			return t
+		}
+		return s.parent.get(name, sort)
+	}
 	switch s.kind {
 	case stEntry:
 		switch {
 		case strings.HasPrefix(name, "L$"):
 			t = s.vc.declare("E$"+name, sort) // read before initialisation cannot happen: Alloc zeroes first
-		case strings.HasPrefix(name, "G$called$"), strings.HasPrefix(name, "G$held$"), strings.HasPrefix(name, "D$") && sort == SBool:
+		case strings.HasPrefix(name, "G$called$"), strings.HasPrefix(name, "G$held$"), strings.HasPrefix(name, "G$tainted$"), strings.HasPrefix(name, "D$") && sort == SBool:
 			t = tFalse
 		case strings.HasPrefix(name, "G$ncalls$"), name == "G$clock", strings.HasPrefix(name, "G$seq$"):
 			t = i64(0)
@@ -71,7 +119,7 @@ func (s *State) get(name string, sort Sort) Term {
 	case stSeq:
 		// walk up iteratively over plain sequence nodes
 		p := s.parent
-		for p.kind == stSeq {
+		for p.kind == stSeq && p.parent != nil {
 			if v, ok := p.writes[name]; ok {
 				return v
 			}
@@ -85,7 +133,7 @@ func (s *State) get(name string, sort Sort) Term {
 			t = s.vc.declareFresh(name+"!h", sort)
 		}
 	case stHavocSome:
-		if s.mods[name] || s.mods["*"] {
+		if s.mods[name] || s.mods["*"] || s.prefixHit(name) {
 			t = s.vc.declareFresh(name+"!l", sort)
 		} else if s.mods["N$"+name] && strings.HasPrefix(string(sort), "(Array (_ BitVec 64) ") {
 			// only objects allocated since the parent state may differ
